@@ -171,7 +171,7 @@ def js(d):
 
 
 def make_ctx(frags):
-    ctx = new_ctx(lua=True)
+    ctx = new_ctx(lua=True, parser_function_aliases={"#si": "#if"})
     for t, b in LIB.items():
         ctx.add_page(t, 10, b)
     ctx.add_page("Module:echo", 828, ECHO, model="Scribunto")
@@ -230,7 +230,13 @@ def et_text(spec):
 
 
 def cpf_text(spec):
-    return "{{" + spec["name"] + ":" + "|".join(spec["args"]) + "}}"
+    args = spec["args"]
+    if isinstance(args, dict):
+        pos = [args[i] for i in sorted(k for k in args if isinstance(k, int))]
+        args = pos + ["%s=%s" % (k, v) for k, v in args.items() if not isinstance(k, int)]
+    if ":" in spec["name"]:
+        return "{{" + spec["name"] + "".join("|" + a for a in args) + "}}"
+    return "{{" + spec["name"] + ":" + "|".join(args) + "}}"
 
 
 def fragments(tier):
@@ -264,7 +270,18 @@ def fragments(tier):
     cpfs.append({"name": "#switch", "args": many})
     cpfs.append({"name": "#switch", "args": ["c10"] + many[1:]})
     cpfs.append({"name": "#if", "args": ["", "y", "n"] + ["x"] * 9})
+    # a function name that carries its first argument ("#if:x"), and a name reached through parser_function_aliases
+    cpfs.append({"name": "#if:x", "args": ["yes", "no"]})
+    cpfs.append({"name": "#tag:span", "args": ["content"]})
+    cpfs.append({"name": "#si", "args": ["x", "yes", "no"]})
     return frs, ets, cpfs
+
+
+def cpf_named_specs():
+    # argument tables with named entries (passed on as k=v)
+    return [{"name": "#tag", "args": {1: "span", 2: "content", "class": "foo"}},
+            {"name": "#tag", "args": {1: "ref", 2: "content", "name": "n1"}},
+            {"name": "#switch", "args": {1: "b", "a": "1", "b": "2"}}]
 
 
 def work(payload, skip, report):
@@ -379,7 +396,8 @@ def main(run):
             chunks.append(("hist", (a,), 3))
     frs, ets, cpfs = fragments(run.tier)
     step = 400
-    for which, items in (("pp", frs), ("et", ets), ("cpf", cpfs), ("cpft", cpfs), ("cpfv", cpfs)):
+    for which, items in (("pp", frs), ("et", ets), ("cpf", cpfs), ("cpft", cpfs), ("cpfv", cpfs), ("cpft", cpf_named_specs()),
+                         ("cpfv", cpf_named_specs())):
         for lo in range(0, len(items), step):
             chunks.append(("api", which, items[lo:lo + step], lo))
     for cid, acc, hung in run_chunks(work, chunks, nproc=run.nproc, case_timeout=30):
